@@ -72,7 +72,7 @@ theorem scanZeros_digits : ∀ (ds : List Nat) (rest : Bytes) (p q : Nat), (∀ 
     intro rest p q hd hr
     have hlt := hd d (by simp)
     obtain ⟨f1, f2, f3, _⟩ := digit_byte_facts d hlt
-    have : digitsText (d :: ds) ++ rest = UInt8.ofNat (48 + d) :: (digitsText ds ++ rest) := by simp [digitsText]
+    have : digitsText (d :: ds) ++ rest = UInt8.ofNat (48 + d) :: (digitsText ds ++ rest) := by simp [digitsText, digitByte]
     rw [this, scanZeros]
     simp only [f1, f2, Bool.or_self, Bool.false_eq_true, if_false, f3]
     rw [ih rest _ _ (fun x hx => hd x (by simp [hx])) hr]
@@ -194,7 +194,7 @@ theorem head_digits {ds : List Nat} (h : ∀ d ∈ ds, d < 10) (hne : ds ≠ [])
   cases ds with
   | nil => exact absurd rfl hne
   | cons d r =>
-    simp only [digitsText, List.map_cons, List.cons_append, List.headD_cons]
+    simp only [digitsText, digitByte, List.map_cons, List.cons_append, List.headD_cons]
     exact (digit_byte_facts d (h d (by simp))).2.2.2
 
 /-- looks_numeric holds for every RFC number text -/
@@ -374,7 +374,7 @@ theorem doublePost_shape (nz : Bool) (t : Bytes) (h : g17Shape t = true) :
         rw [← this, finalAppend_ok _ (by rw [this]; omega)]
         congr 1
         rw [Num.text_parts, Num.text_parts]
-        simp [fracText, expText, hf, he, digitsText]
+        simp [fracText, expText, hf, he, digitsText, digitByte]
     · -- fraction or exponent present: the text goes out unchanged
       simp only [hfe, Bool.false_eq_true, if_false]
       have hfe' : (n.frac.isSome || n.exp.isSome) = true := by
